@@ -362,3 +362,85 @@ theorem ip6_spec {d : Bytes} {r : IP6} (h : ip6 d = some r) :
   · simp at h
 
 end TRV.Proofs
+
+namespace TRV.Proofs
+open TRV TRV.Wire TRV.Drv TRV.Spec
+
+/-- the outer IPv6 header as seen by `Spec.view6`, for a packet whose upper layer decoded as ICMPv6
+    with a type other than 58 (which rules out gopacket's jumbo quirk, where the "ICMPv6 header" is
+    really the hop-by-hop header and its first byte is 58) -/
+theorem view6_of_ip6 {d : Bytes} {r : IP6} {i : ICMP6} (h : ip6 d = some r)
+    (hv : ∃ b0, u8 d 0 = some b0 ∧ b0 / 16 = 6) (hu : r.upper = 58) (hi : icmp6 r.payload = some i)
+    (hty : i.type ≠ 58) :
+    ∃ k, view6 d = some { outerSrc := r.src, outerDst := r.dst, upper := 58, l4 := k } ∧
+      Window r.payload d k := by
+  obtain ⟨hlen, hnh, hs, hd, hl40, hcase⟩ := ip6_spec h
+  obtain ⟨b0, hb0, hver⟩ := hv
+  obtain ⟨ht, _, _, hl4⟩ := icmp6_spec hi
+  rcases hcase with ⟨hnz, hup, hw⟩ | ⟨hz, hl, e40, e41, hw | ⟨hw, hj⟩⟩
+  · refine ⟨40, ?_, hw⟩
+    unfold view6
+    rw [hb0, hnh, raw_self (by omega), raw_self (by omega)]
+    simp [hver, hnz, hs, hd, ← hup, hu]
+  · refine ⟨40 + hl * 8 + 8, ?_, hw⟩
+    unfold view6
+    rw [hb0, hnh, raw_self (by omega), raw_self (by omega)]
+    simp [hver, hz, e40, e41, hs, hd, hu]
+  · exfalso
+    rcases hj with hj | hj
+    · rw [hj] at hl4; simp at hl4
+    · rw [ht] at hj; simp at hj; omega
+
+end TRV.Proofs
+
+namespace TRV.Proofs
+open TRV TRV.Wire TRV.Drv TRV.Spec
+
+/-- an ICMPv6 error in the outer payload whose quoted IPv6 header has no hop-by-hop header: what
+    `Spec.quote6` reads at the raw offsets -/
+theorem quote6_of_parse {buf pl : Bytes} {k : Nat} {i : ICMP6} {nfo : ICMPInfo}
+    (hw : Window pl buf k) (hi : icmp6 pl = some i) (hinfo : icmpInfo6 i = some nfo)
+    (hnz : u8 buf (k + 8 + 6) ≠ some 0) :
+    ∃ qnh qplen,
+      quote6 buf k = some { icmpType := i.type, icmpCode := i.code, qSrc := nfo.qsrc,
+                            qDst := nfo.qdst, qNh := qnh, qPlen := qplen, qL4 := k + 8 + 40 } ∧
+      Window nfo.payload buf (k + 8 + 40) ∧ nfo.wrappedId = (if qnh = 17 then qplen else 0) := by
+  obtain ⟨h1, h2, hpl, hlen⟩ := icmp6_spec hi
+  unfold icmpInfo6 at hinfo
+  split at hinfo; · simp at hinfo
+  rename_i b hb
+  split at hinfo; · simp at hinfo
+  rename_i hb6
+  cases hq : ip6 (i.payload.drop 4) with
+  | none => simp [hq] at hinfo
+  | some q =>
+    simp [hq] at hinfo
+    subst hinfo
+    have hwq0 : Window (i.payload.drop 4) buf (k + 8) := by
+      rw [hpl]
+      have := ((Window.drop (pl.drop 4) 4).trans (Window.drop pl 4)).trans hw
+      simpa [Nat.add_assoc] using this
+    obtain ⟨hlenq, hnh, hs, hd, hl40, hcase⟩ := ip6_spec hq
+    have e1 := hw.u8 h1
+    have e2 := hw.u8 h2
+    have hb' : u8 (i.payload.drop 4) 0 = some b := by
+      unfold u8 at hb ⊢
+      rw [List.getElem?_drop]; simpa using hb
+    have e3 := hwq0.u8 hb'
+    have e4 := hwq0.u16 hlenq
+    have e5 := hwq0.u8 hnh
+    have e6 := hwq0.raw (off := 8) (n := 16) (by omega) (by omega)
+    have e7 := hwq0.raw (off := 24) (n := 16) (by omega) (by omega)
+    simp only [Nat.add_zero] at e1 e3
+    have hqnz : q.nextHeader ≠ 0 := by
+      intro h0; rw [h0] at e5; exact hnz e5
+    rcases hcase with ⟨_, _, hwp⟩ | ⟨hz, _⟩
+    · refine ⟨q.nextHeader, q.len, ?_, ?_, rfl⟩
+      · unfold quote6
+        rw [e1, e2, e3, e4, e5, e6, e7]
+        simp [hb6, hqnz, hs, hd]
+      · have := hwp.trans hwq0
+        simpa [Nat.add_assoc] using this
+    · exact absurd hz hqnz
+
+end TRV.Proofs
